@@ -291,6 +291,22 @@ def gen_quant(prefix, ops, tier, rng):
                             k = c.r("%s %d %s" % (op, r, set_tokens(V))); c.q("obs %d" % k)
                 dist["vars%d" % nv] += 1
                 cases.append(c.done("%d/%s/%s" % (nv, tv, fm), nt))
+    # expressions in arbitrary shapes (nested negations, repeated variables, constants, empty nodes)
+    memo_ = {}
+    leaves2 = [gen.L("a"), gen.L("b"), gen.C(0), gen.C(1)]
+    shapes = [e for s_ in range(1, 5) for e in gen.enum_trees(s_, leaves2, 2, memo_)]
+    five = gen.enum_trees(5, leaves2, 2, memo_)
+    shapes += rng.sample(five, min(len(five), 1500 if tier == "quick" else 20000))
+    vsets = [[], ["a"], ["b"], ["a", "b"], ["a", "z"]]
+    for k_ in range(0, len(shapes), 12):
+        c = Case("%s_s%d" % (prefix, n)); n += 1
+        for e in shapes[k_:k_ + 12]:
+            r0 = c.r("expr " + pe(e))
+            for V in vsets:
+                for op in ops:
+                    kk = c.r("%s %d %s" % (op, r0, set_tokens(V))); c.q("obs %d" % kk)
+        dist["expr_shapes"] += len(shapes[k_:k_ + 12])
+        cases.append(c.done("shapes%d" % k_, True))
     for _ in range(80 if tier == "quick" else 800):
         names = gen.NAMES[: rng.randint(4, 6)]
         e = gen.rand_tree(rng, 4, names, consts=False, empties=False)
@@ -309,13 +325,13 @@ def gen_quant(prefix, ops, tier, rng):
 def gen_C06(tier, rng):
     cases, dist = gen_quant("c06", ["exists", "forall"], tier, rng)
     return {"cases": cases, "exhaustive": True, "dist": dist,
-            "rule": "every truth function of <= 3 variables x every subset of the 4-name universe {a,b,c,z} (16 subsets: empty, foreign, several inputs) x {exists, forall} x three representations, full observation; random 4-6 input functions with 1-3 quantified names; non-trivial = the set is empty or contains >= 2 inputs; distinct = (function, shape)"}
+            "rule": "every truth function of <= 3 variables x every subset of the 4-name universe {a,b,c,z} (16 subsets: empty, foreign, several inputs) x {exists, forall} x three representations, full observation; every expression tree with <= 4 nodes over {a, b, constants} (sample of 5) incl. nested negations, quantified over {}, {a}, {b}, {a,b}, {a,z}; random 4-6 input functions with 1-3 quantified names; non-trivial = the set is empty or contains >= 2 inputs; distinct = (function, shape)"}
 
 
 def gen_C07(tier, rng):
     cases, dist = gen_quant("c07", ["deriv"], tier, rng)
     return {"cases": cases, "exhaustive": True, "dist": dist,
-            "rule": "every truth function of <= 3 variables x every subset of {a,b,c,z} x derivative x three representations, full observation; random 4-6 input functions; non-trivial = the set is empty or contains >= 2 inputs (the cases the suite does not have); distinct = (function, shape)"}
+            "rule": "every truth function of <= 3 variables x every subset of {a,b,c,z} x derivative x three representations, full observation; every small expression tree incl. nested negations; random 4-6 input functions; non-trivial = the set is empty or contains >= 2 inputs (the cases the suite does not have); distinct = (function, shape)"}
 
 
 # ------------------------------------------------------------------ C08
@@ -453,6 +469,17 @@ def gen_C10(tier, rng):
         c = Case("c10_r%d" % n); n += 1
         for r in three_reps(c, e): c.q("enum %d" % r)
         cases.append(c.done(pe(e), True)); dist["random"] = dist.get("random", 0) + 1
+    # expression shapes (not only canonical DNF/CNF): every small tree, every small negation-free tree
+    memo_ = {}
+    small = [e for s_ in range(1, 5) for e in gen.enum_trees(s_, LEAVES, 3, memo_)]
+    five = gen.enum_trees(5, LEAVES, 3, memo_)
+    mono = [e for s_ in range(1, (6 if tier == "quick" else 8)) for e in enum_monotone(s_, [gen.L("a"), gen.L("b"), gen.L("c")], {})]
+    shapes = small + rng.sample(five, 2000 if tier == "quick" else len(five)) + (mono if len(mono) < 6000 else rng.sample(mono, 6000))
+    for k_ in range(0, len(shapes), 25):
+        c = Case("c10_s%d" % n); n += 1
+        for e in shapes[k_:k_ + 25]:
+            r0 = c.r("expr " + pe(e)); c.q("enum %d" % r0)
+        cases.append(c.done("shapes%d" % k_, True)); dist["expr_shapes"] = dist.get("expr_shapes", 0) + len(shapes[k_:k_ + 25])
     # wide diagrams: the weight is known in closed form (groups of disjoint variables), no enumeration
     for _ in range(60 if tier == "quick" else 600):
         nvars = rng.choice([20, 40, 52, 53, 54, 55, 60, 63, 64, 65, 70, 100])
@@ -479,7 +506,7 @@ def gen_C10(tier, rng):
         k_ = c.r("op1 not %d" % r2); c.q("weight %d %d" % (k_, (1 << nvars) - weight))
         cases.append(c.done("wide%d" % n, True)); dist["wide_%d" % nvars] = dist.get("wide_%d" % nvars, 0) + 1
     return {"cases": cases, "exhaustive": True, "dist": dist,
-            "rule": "every truth function of <= %d variables in the three representations: domain, image, relation, support, weight, sat_point, degrees (iterators also polled after exhaustion); conjunctions of 0..%d literals for the domain order; random 5-9 input functions; diagrams with 20..100 inputs whose weight is known in closed form (beyond 2^53 and 2^64); oracle: domain = 2^n points in lexicographic order, image = specified function in that order, relation = zip, support = exactly the 1-points (as a set for diagrams), weight = their number, sat_point in support / none iff empty; non-trivial = all; distinct = function" % (3 if tier == "quick" else 4, 8 if tier == "quick" else 10)}
+            "rule": "every truth function of <= %d variables in the three representations: domain, image, relation, support, weight, sat_point, degrees (iterators also polled after exhaustion); conjunctions of 0..%d literals for the domain order; every expression tree with <= 4 nodes, a sample of 5-node trees and every small negation-free tree (enumerations of expressions in arbitrary shapes); random 5-9 input functions; diagrams with 20..100 inputs whose weight is known in closed form (beyond 2^53 and 2^64); oracle: domain = 2^n points in lexicographic order, image = specified function in that order, relation = zip, support = exactly the 1-points (as a set for diagrams), weight = their number, sat_point in support / none iff empty; non-trivial = all; distinct = function" % (3 if tier == "quick" else 4, 8 if tier == "quick" else 10)}
 
 
 # ------------------------------------------------------------------ C11
@@ -890,7 +917,8 @@ FMT = "NCWK"
 
 def gen_C17(tier, rng):
     cases = []; dist = collections.Counter(); n_ = 0
-    namesets = [["a", "b", "c", "d"], ["x_0", "x_1", "x_10", "x_2"], sorted(["é", "漢", "ü", "ñ"]), sorted(["longvariablename1", "q", "zz", "k9"])]
+    namesets = [["a", "b", "c", "d"], ["x_0", "x_1", "x_10", "x_2"], sorted(["é", "漢", "ü", "ñ"]), sorted(["longvariablename1", "q", "zz", "k9"]),
+                sorted(["result", "Result", "res", "output"]), sorted(["result", "a", "r", "x"])]
     maxv = 3 if tier == "quick" else 4
     for nv in range(0, maxv + 1):
         for tv in gen.all_tvs(nv):
@@ -914,7 +942,7 @@ def gen_C17(tier, rng):
             dist["unsafe_names_modelonly"] += 1
             cases.append(c.done("unsafe/%s/%s" % (ns, tv), False))
     return {"cases": cases, "exhaustive": tier != "quick", "dist": dict(dist),
-            "rule": "every truth function of <= %d variables (3+ variables: every %s) over four name sets (ASCII, x_i with x_10 < x_2, non-ASCII, long) x all 16 input/output Boolean formattings + the default to_csv: exported text compared byte for byte with the model, re-import compared with the table itself (C17_round_trip) ; the empty table; names that are not csv-safe (comma, quote, line break, BOM, Boolean spelling) compared with the model only; non-trivial = csv-safe names; distinct = (function, name set)" % (maxv, "fifth" if tier == "quick" else "third")}
+            "rule": "every truth function of <= %d variables (3+ variables: every %s) over six name sets (ASCII, x_i with x_10 < x_2, non-ASCII, long, and names equal or close to the export's own column name `result`) x all 16 input/output Boolean formattings + the default to_csv: exported text compared byte for byte with the model, re-import compared with the table itself (C17_round_trip) ; the empty table; names that are not csv-safe (comma, quote, line break, BOM, Boolean spelling) compared with the model only; non-trivial = csv-safe names; distinct = (function, name set)" % (maxv, "fifth" if tier == "quick" else "third")}
 
 
 def gen_C18(tier, rng):
@@ -973,8 +1001,19 @@ def gen_C20(tier, rng):
         for ln in c.lines:
             if ln.startswith("r "): dist[ln.split()[1]] += 1
         cases.append(c.done("prog%d" % n, True))
+    # history dependence: many short-lived objects; normal forms are computed and dropped at once, so that any
+    # hidden cache keyed by addresses or by earlier calls shows up as a result that depends on what ran before
+    for n in range(60 if tier == "quick" else 600):
+        c = Case("c20_h%d" % n)
+        for _ in range(40):
+            e = gen.rand_tree(rng, rng.randint(1, 4), ["a", "b", "c"], max_arity=3, consts=rng.random() < 0.3, empties=False)
+            if rng.random() < 0.5: e = gen.Nn(e)
+            r0 = c.r("expr " + pe(e)); c.q("nf %d" % r0)
+            if rng.random() < 0.3: c.q("nf %d" % rng.randint(0, r0))
+        dist["history_streams"] += 1
+        cases.append(c.done("hist%d" % n, True))
     return {"cases": cases, "exhaustive": False, "dist": dict(dist),
-            "rule": "random programs as for C15; every instruction and every observation (structure, Debug form, enumerations incl. support order and sat point, CSV / rendered / printed text) is computed twice within one process and again in further separate processes with fresh hash seeds; all must be identical, and the operand registers are observed again after all later instructions, in shuffled order; plus a source scan for interior mutability; non-trivial = all; distinct = program"}
+            "rule": "random programs as for C15; every instruction and every observation (structure, Debug form, enumerations incl. support order and sat point, CSV / rendered / printed text) is computed twice within one process and again in further separate processes with fresh hash seeds; all must be identical, and the operand registers are observed again after all later instructions, in shuffled order; plus streams of 40 short-lived expressions whose normal forms are computed and dropped at once (hidden caches keyed by addresses or earlier calls), plus a source scan for interior mutability; non-trivial = all; distinct = program"}
 
 
 GENERATORS.update({"C20": gen_C20})
